@@ -107,6 +107,13 @@ def run(pid, tier, seed):
                                       % (res["flavour"], json.dumps(m["graph"]["out"]), json.dumps(m["loop"]), m["closure"], json.dumps(m["script"]),
                                          m["observed"]["outcome"][:120], json.dumps(m["observed"]["yields"])[:200], ", ".join(sorted(set(reasons)))),
                                       dict(m, source="tlc-generated-case", tlc_reasons=reasons))
+    # liveness (termination once the script is exhausted), weak fairness, small constants
+    lr = vlib.run_tlc("MC_Cursor", vlib.cfg_text({"Nodes": {1, 2}, "Vals": {1}, "Directed": True, "MaxEdges": 2, "MaxScript": 1, "MaxAt": 2,
+                                                  "LoopKinds": tla_strs(LOOPS), "QDirs": tla_strs(["out", "in"])},
+                                                 spec="CSpecFair", properties=["EveryLoopEnds"]), "%s/live" % tag, workers=4, timeout=3000, collect_prints=False)
+    if lr.violation or not lr.ok:
+        raise ToolError("liveness EveryLoopEnds of MC_Cursor fails: %s (%s)" % (lr.violation, lr.out_file))
+    cov_live = {"property": "EveryLoopEnds == (phase = run) ~> (phase = end) under WF", "states": lr.distinct, "result": "holds"}
     cov = vlib.action_coverage("MC_Cursor", vlib.cfg_text({"Nodes": {1, 2}, "Vals": {1}, "Directed": True, "MaxEdges": 2, "MaxScript": 1, "MaxAt": 2,
                                                             "LoopKinds": tla_strs(LOOPS), "QDirs": tla_strs(["out", "in"])},
                                                            spec="CSpecEmit", invariants=["LastYieldExists", "Bounded", "MirrorKept"]), "%s/cov" % tag)
@@ -136,7 +143,7 @@ def run(pid, tier, seed):
                     "recorded_events_validated_by_tlc": events, "evaluations": execs + events, "distinct_nontrivial": nontriv,
                     "rule": "one execution = (graph, loop, script, closure kind) on one flavour; non-trivial = at least one script entry actually ran "
                             "inside the loop; distinct by hash of the case", "exhaustive": True, "model_drift": drift, "models": models,
-                    "flavours": ALL4, "recorders": recs, "action_coverage_small_model": cov})
+                    "flavours": ALL4, "recorders": recs, "action_coverage_small_model": cov, "liveness": cov_live})
     rep.assumptions += ["script operations run from the loop body / for_each / filter closure of the running loop, on the same and on other nodes",
                         "non-termination = more than 2000 yields (far above any finite legitimate count for <= 6 nodes and <= 6 script entries)",
                         "'query' entries = all node observers, a nested bfs and a nested transposed dfs cycle search, container get/contains/index/insert/remove/to_vec/to_dot"]
